@@ -63,6 +63,10 @@ enum Follow {
     /// no further write: on backends whose handles write through (physical ones) the drop must
     /// not change any timestamp or the length again
     AppendWrittenBeforeSetters,
+    /// calls on the entry that are REFUSED (create_dir on something that exists, create_file /
+    /// append_file on a directory, remove_dir / read_dir on a file, creating below a file) come
+    /// after the setters: a call that fails changes nothing, the values set are still reported
+    RefusedCalls,
 }
 
 struct Case {
@@ -253,8 +257,12 @@ pub fn run_c19(ctx: &Ctx) -> i32 {
                         Follow::AppendHandleOpenAcrossSetters,
                         Follow::ReadBeforeSetters,
                         Follow::AppendWrittenBeforeSetters,
+                        Follow::RefusedCalls,
                     ] {
-                        if (is_dir || is_link) && !matches!(follow, Follow::Nothing | Follow::ReadBeforeSetters) {
+                        if is_link && follow == Follow::RefusedCalls {
+                            continue;
+                        }
+                        if (is_dir || is_link) && !matches!(follow, Follow::Nothing | Follow::ReadBeforeSetters | Follow::RefusedCalls) {
                             continue;
                         }
                         runs += 1;
@@ -535,6 +543,43 @@ pub fn run_c19(ctx: &Ctx) -> i32 {
                                 }
                             }
                             Follow::AppendHandleOpenAcrossSetters | Follow::ReadBeforeSetters | Follow::AppendWrittenBeforeSetters => {}
+                            Follow::RefusedCalls => {
+                                let child = p.join("x").unwrap();
+                                let mut calls: Vec<(&str, Box<dyn Fn() -> bool + '_>)> = vec![];
+                                calls.push(("create_dir", Box::new(|| p.create_dir().is_err())));
+                                if is_dir {
+                                    calls.push(("create_file", Box::new(|| p.create_file().is_err())));
+                                    calls.push(("append_file", Box::new(|| p.append_file().is_err())));
+                                    if !case.cfg.has_overlay() {
+                                        // (on an overlay this call is the recorded finding of C09)
+                                        calls.push(("remove_file", Box::new(|| p.remove_file().is_err())));
+                                    }
+                                } else {
+                                    calls.push(("remove_dir", Box::new(|| p.remove_dir().is_err())));
+                                    calls.push(("read_dir", Box::new(|| p.read_dir().is_err())));
+                                    calls.push(("create_dir(below)", Box::new(|| child.create_dir().is_err())));
+                                    calls.push(("create_file(below)", Box::new(|| child.create_file().is_err())));
+                                }
+                                for (name, call) in &calls {
+                                    let bm = PathApi::metadata(&p);
+                                    let refused = match guard(|| call()) {
+                                        Ok(r) => r,
+                                        Err(m) => {
+                                            vio.push(mk(format!("{}|panic", name), format!("panicked: {}", m)));
+                                            continue;
+                                        }
+                                    };
+                                    *classes.entry(format!("{}:{}:refused-call:{}:{}", case.label, kind, name, if refused { "Err" } else { "Ok" })).or_insert(0) += 1;
+                                    if !refused {
+                                        break; // (not a refused call on this backend: nothing to say here)
+                                    }
+                                    if let (Ok(bm), Ok(am)) = (bm, PathApi::metadata(&p)) {
+                                        if am.created != bm.created || am.modified != bm.modified || am.len != bm.len || am.ftype != bm.ftype {
+                                            vio.push(mk(format!("refused-{}-changed-the-entry", name), format!("{} on the {} failed, yet created/modified/len/type changed: {:?} -> {:?}", name, kind, bm, am)));
+                                        }
+                                    }
+                                }
+                            }
                             Follow::Read => {
                                 if PathApi::read_all(&p).is_ok() {
                                     if let (Ok(bm), Ok(am)) = (&before, PathApi::metadata(&p)) {
